@@ -8,11 +8,11 @@ LIMIT = 8.0
 RULE = ("edge-manifold orientable base meshes (tetrahedron, octahedron, cube, icosahedron, torus, grids, fans, annuli, open cube, "
         "ellipsoids; unions of 2-3 components of different size) in which every triangle has an interior edge, x flip patterns "
         "(all 2^T for T <= 8 (quick: T <= 6) else sampled, always including none / all / single), x cyclic rotations x relabelling x "
-        "unused vertices; plus non-manifold books and three-cone complexes for the ValueError clause. distinct = hash of (v,t); "
+        "unused vertices x length unit (30%: coordinates scaled by 1e-6, 3e-7, 1e-4 or 1e3); plus non-manifold books and three-cone complexes for the ValueError clause. distinct = hash of (v,t); "
         "non-trivial = at least one triangle flipped relative to a consistent orientation, or a rejected mesh")
 TRUSTED = ["np.unique(axis=0,return_index,return_counts), np.lexsort stability, scipy sparse product / addition keeping stored entries (modelled)"]
 ASSUMPTIONS = ["a call that does not return within 8 s corresponds to OutOfFuel",
-               "closed meshes with |volume| < 1e-9 are not generated (sign decision would be rounding dependent)"]
+               "closed meshes whose volume is below 1e-9 of the sum of the absolute signed-volume terms are not generated (sign decision would be rounding dependent)"]
 EXHAUSTIVE = {"quick": False, "thorough": False}
 SHARD_BYTES = 150_000
 
@@ -79,7 +79,12 @@ def generate(rng, tier):
                 vv, tt, _ = gm.relabel(vv, tt, rng)
             if rng.random() < 0.15:
                 tt, _ = gm.reorder(tt, rng)
-            cases.append({"family": name, "v": vv, "t": tt, "flip_pattern": p})
+            sc = 1.0
+            if rng.random() < 0.3:
+                # another length unit (micrometres ... kilometres): orientation and the outward decision do not depend on it
+                sc = rng.choice([1e-6, 3e-7, 1e-4, 1e3])
+                vv = [[c * sc for c in x] for x in vv]
+            cases.append({"family": name, "v": vv, "t": tt, "flip_pattern": p, "scale": sc})
     for k in (3, 4, 5):
         v, t = gm.book(k)
         t2, _ = gm.flip_some(t, rng, 0.5)
@@ -177,8 +182,9 @@ def oracle(case, out):
     if closed:
         p = np.array(case["v"], dtype=float)
         f = np.array(tn, dtype=int)
-        vol = float(np.sum(np.einsum("ij,ij->i", p[f[:, 0]], np.cross(p[f[:, 1]], p[f[:, 2]]))) / 6)
-        if vol < -1e-12:
+        terms = np.einsum("ij,ij->i", p[f[:, 0]], np.cross(p[f[:, 1]], p[f[:, 2]])) / 6
+        vol = float(np.sum(terms))
+        if vol < -1e-12 * float(np.abs(terms).sum()):
             bad("closed_volume_non_negative", f"volume {vol}")
     nchg = sum(1 for a, b in zip(t, tn) if _parity_changed(a, b))
     if r1["flipped"] != nchg:
